@@ -206,6 +206,12 @@ def apply_ghost(text, label, ghost, report):
     phase B only inserts //@-tagged ghost lines.  Returns (unit text, extra items)."""
     secs = ghost.get(label)
     extra_items = []
+    # loop ordinals refer to the extracted text: mark every loop keyword before anything moves
+    if any(s_[0] in ("desugar", "loop", "body", "afterloop", "beforeloop") for s_ in secs):
+        pos0 = loop_positions(text)
+        for k in range(len(pos0), 0, -1):
+            kw_i = pos0[k - 1][0]
+            text = text[:kw_i] + "/*@L%d*/" % k + text[kw_i:]
     # ---------------- phase A
     for kind, arg, body in secs:
         if kind == "subst":
@@ -239,7 +245,11 @@ def apply_ghost(text, label, ghost, report):
             cb = rustlex.match_brace(msk, ob)
             block = text[ob:cb + 1]
             nlines = block.count("\n") + 1
-            text = text[:ob] + "{ %s(%s) }" % (fname, args) + text[cb + 1:]
+            if fname.startswith("return "):
+                fname = fname[7:].strip()
+                text = text[:ob] + "{ return %s(%s); }" % (fname, args) + text[cb + 1:]
+            else:
+                text = text[:ob] + "{ %s(%s) }" % (fname, args) + text[cb + 1:]
             contract = "\n".join("    " + l.strip() for l in body if l.strip())
             extra_items.append("#[verifier::external_body]\nfn %s(%s) -> %s\n%s\n%s\n" % (
                 fname, params, ret, contract, dedent(block)))
@@ -264,55 +274,88 @@ def apply_ghost(text, label, ghost, report):
                 ty = ty[:mw.start()]
             text = head[:m.start()] + "-> (%s: %s)%s " % (name, ty.strip(), wh) + text[bo:]
             _bump(report, "N7 return value named")
-    # N4 desugaring and N5 iterator naming work on loop ordinals of the *extracted* text
-    loop_edits = [s for s in secs if s[0] in ("desugar", "loop")]
-    if loop_edits:
-        pos = loop_positions(text)
-        todo = []
-        for kind, arg, body in loop_edits:
-            parts = arg.split(None, 1)
+    # N4 desugaring and N5 iterator naming (loops addressed through their /*@Lk*/ markers)
+    def marked_loop(k):
+        mk = "/*@L%d*/" % k
+        i = text.find(mk)
+        if i < 0:
+            raise Undecided("lost anchor in %s: loop #%d" % (label, k))
+        kw_i = i + len(mk)
+        m = re.match(r"(for|while|loop)\b", text[kw_i:])
+        msk = rustlex.mask(text)
+        depth, j, brace = 0, kw_i + m.end(), None
+        while j < len(msk):
+            ch = msk[j]
+            if ch in "([":
+                depth += 1
+            elif ch in ")]":
+                depth -= 1
+            elif ch == "{" and depth == 0:
+                brace = j
+                break
+            j += 1
+        return kw_i, brace, m.group(1)
+
+    for kind, arg, body in secs:
+        if kind == "desugar":
+            ks, rest = arg.split(None, 1)
+            k = int(ks)
+            kw_i, brace_i, kw = marked_loop(k)
+            expected, newit = [x.strip() for x in rest.split("==>")]
+            m = re.match(r"for (.*?) in (.*)$", text[kw_i:brace_i].strip(), re.S)
+            if not m or kw != "for":
+                raise Undecided("loop #%d in %s is not a for loop" % (k, label))
+            if canon(m.group(2)) != canon(expected):
+                raise Undecided("loop #%d in %s iterates `%s`, expected `%s`" % (k, label, m.group(2).strip(), expected))
+            cb = rustlex.match_brace(rustlex.mask(text), brace_i)
+            itn = "it__%d" % k
+            mk = "/*@L%d*/" % k
+            head = "{ let mut %s = %s; %sloop { match %s.nxt() { None => break, Some(%s) => {" % (itn, newit, mk, itn, m.group(1))
+            text = text[:kw_i - len(mk)] + head + text[brace_i + 1:cb] + "} } } }" + text[cb + 1:]
+            _bump(report, "N4 for-loop desugared to loop/match over a specified iterator")
+    for kind, arg, body in secs:
+        if kind == "loop":
+            parts = arg.split()
             k = int(parts[0])
-            if k > len(pos):
-                raise Undecided("lost anchor in %s: loop #%d (only %d loops)" % (label, k, len(pos)))
-            todo.append((pos[k - 1], kind, parts[1] if len(parts) > 1 else "", k))
-        for (kw_i, brace_i, kw), kind, rest, k in sorted(todo, key=lambda e: -e[0][0]):
-            if kind == "desugar":
-                expected, newit = [x.strip() for x in rest.split("==>")]
-                m = re.match(r"for (.*?) in (.*)$", text[kw_i:brace_i].strip(), re.S)
+            it = None
+            for p_ in parts[1:]:
+                if p_.startswith("iter="):
+                    it = p_[5:]
+            if it:
+                kw_i, brace_i, kw = marked_loop(k)
+                m = re.match(r"for (.*?) in ", text[kw_i:brace_i], re.S)
                 if not m or kw != "for":
                     raise Undecided("loop #%d in %s is not a for loop" % (k, label))
-                if canon(m.group(2)) != canon(expected):
-                    raise Undecided("loop #%d in %s iterates `%s`, expected `%s`" % (k, label, m.group(2).strip(), expected))
-                cb = rustlex.match_brace(rustlex.mask(text), brace_i)
-                itn = "it__%d" % k
-                head = "{ let mut %s = %s; loop { match %s.nxt() { None => break, Some(%s) => {" % (itn, newit, itn, m.group(1))
-                text = text[:kw_i] + head + text[brace_i + 1:cb] + "} } } }" + text[cb + 1:]
-                _bump(report, "N4 for-loop desugared to loop/match over a specified iterator")
-            elif kind == "loop":
-                it = None
-                for p in rest.split():
-                    if p.startswith("iter="):
-                        it = p[5:]
-                if it:
-                    m = re.match(r"for (.*?) in ", text[kw_i:brace_i], re.S)
-                    if not m or kw != "for":
-                        raise Undecided("loop #%d in %s is not a for loop" % (k, label))
-                    text = text[:kw_i + m.end()] + it + ": " + text[kw_i + m.end():]
-                    _bump(report, "N5 for-loop iterator named")
+                text = text[:kw_i + m.end()] + it + ": " + text[kw_i + m.end():]
+                _bump(report, "N5 for-loop iterator named")
     base = text
     # ---------------- phase B (insert-only)
-    loops = [s for s in secs if s[0] == "loop"]
-    if loops:
-        pos = loop_positions(text)
-        edits = []
-        for kind, arg, body in loops:
+    for kind, arg, body in secs:
+        if kind in ("body", "afterloop", "beforeloop"):
             k = int(arg.split()[0])
-            if k > len(pos):
-                raise Undecided("lost anchor in %s: loop #%d (only %d loops)" % (label, k, len(pos)))
-            edits.append((pos[k - 1], body))
-        for (kw_i, brace_i, kw), body in sorted(edits, key=lambda e: -e[0][1]):
+            kw_i, brace_i, kw = marked_loop(k)
+            if kind == "beforeloop":
+                at = text.rfind("\n", 0, kw_i) + 1
+                ind = re.match(r"[ \t]*", text[at:]).group(0)
+                text = text[:at] + "\n".join(tag([ind + l for l in body])) + "\n" + text[at:]
+                continue
+            if kind == "body":
+                # desugared loops: the real body starts after `Some(PAT) => {`
+                m = re.match(r"\{ match it__%d\.nxt\(\) \{ None => break, Some\(.*?\) => \{" % k, text[brace_i:])
+                at = brace_i + (m.end() if m else 1)
+            else:
+                at = rustlex.match_brace(rustlex.mask(text), brace_i) + 1
+                if re.match(r" \}", text[at:]) and "let mut it__%d " % k in text[:kw_i][-200:]:
+                    at += 2  # the block that wraps a desugared loop
+            ls = text.rfind("\n", 0, kw_i) + 1
+            ind = re.match(r"[ \t]*", text[ls:]).group(0) + ("    " if kind == "body" else "")
+            text = text[:at] + "\n" + "\n".join(tag([ind + l for l in body])) + "\n" + text[at:]
+    for kind, arg, body in secs:
+        if kind == "loop":
+            k = int(arg.split()[0])
             if not any(l.strip() for l in body):
                 continue
+            kw_i, brace_i, kw = marked_loop(k)
             text = text[:brace_i].rstrip() + "\n" + "\n".join(tag(body)) + "\n" + text[brace_i:]
     for kind, arg, body in secs:
         if kind == "sig":
@@ -347,6 +390,65 @@ def apply_ghost_outer(text, label, ghost, report):
     return apply_ghost(text, label, ghost, report)
 
 
+def top_match_arms(text):
+    """Block-bodied arms of the first `match` at depth 1 of a fn body: list of insertion indices
+    (just after each arm's opening brace)."""
+    msk = rustlex.mask(text)
+    bo = body_or_semi(text)
+    if msk[bo] != "{":
+        return []
+    be = rustlex.match_brace(msk, bo)
+    depth, k, mpos = 0, bo + 1, None
+    while k < be:
+        ch = msk[k]
+        if ch in "{([":
+            depth += 1
+        elif ch in "})]":
+            depth -= 1
+        elif depth == 0 and re.match(r"match\b", msk[k:]) and not (msk[k - 1].isalnum() or msk[k - 1] == "_"):
+            mpos = k
+            break
+        k += 1
+    if mpos is None:
+        return []
+    # the match's own '{'
+    depth, k = 0, mpos + 5
+    while msk[k] != "{" or depth:
+        if msk[k] in "([":
+            depth += 1
+        elif msk[k] in ")]":
+            depth -= 1
+        k += 1
+    mo, mc = k, rustlex.match_brace(msk, k)
+    arms, depth, k = [], 0, mo + 1
+    while k < mc:
+        ch = msk[k]
+        if ch in "{([":
+            depth += 1
+        elif ch in "})]":
+            depth -= 1
+        elif depth == 0 and msk.startswith("=>", k):
+            j = k + 2
+            while msk[j] in " \t\n":
+                j += 1
+            if msk[j] == "{":
+                arms.append(j + 1)
+                k = rustlex.match_brace(msk, j) + 1
+                continue
+        k += 1
+    return arms
+
+
+def apply_armsplit(text, live):
+    """insert `assume(false)` at the start of every block arm except arm `live` (1-based; 0 = none live)."""
+    arms = top_match_arms(text)
+    for n in range(len(arms), 0, -1):
+        if n != live:
+            at = arms[n - 1]
+            text = text[:at] + "\n    assume(false); // arm filter: this arm is verified in its own variant" + TAG + "\n" + text[at:]
+    return text, len(arms)
+
+
 def erase(text):
     return "\n".join(l for l in text.split("\n") if not l.endswith(TAG))
 
@@ -369,7 +471,9 @@ def extract_item(srcfile, header_re, nth):
     return src[a:b], rustlex.line_of(src, a), rustlex.line_of(src, b)
 
 
-def build_unit(unit, outdir, ghost_override=None):
+def build_unit(unit, outdir, ghost_override=None, variant=None):
+    """variant = (label, k): for items carrying an `armsplit` ghost section, keep only arm k of
+    `label` live (all arms of every other split item are filtered).  variant=None: no filtering."""
     tmpl = os.path.join(ROOT, "contracts", "units", unit + ".rs")
     ghost = Ghost(ghost_override or os.path.join(ROOT, "contracts", "ghost", unit + ".ghost"))
     report = {"unit": unit, "items": [], "normalisations": {}, "holes": [], "ghost_lines": 0, "erasure_ok": True}
@@ -406,6 +510,17 @@ def build_unit(unit, outdir, ghost_override=None):
                 text = text[:a] + piece + text[b:]
                 used.add(sub)
             with_ghost = apply_ghost_outer(text, label, ghost, report) + extra_tail
+            if any(sec[0] == "armsplit" for sec in ghost.get(label)):
+                if variant is not None:
+                    live = variant[1] if variant[0] == label else 0
+                    # only the item text itself (hole fns appended after it are untouched)
+                    cut = with_ghost.find("\n\n#[verifier::external_body]\nfn hole_")
+                    head, tail = (with_ghost, "") if cut < 0 else (with_ghost[:cut], with_ghost[cut:])
+                    head, narms = apply_armsplit(head, live)
+                    with_ghost = head + tail
+                else:
+                    narms = len(top_match_arms(with_ghost))
+                report.setdefault("armsplit", {})[label] = narms
             used.add(label)
             report["items"].append({"label": label, "file": "src/" + srcfile, "lines": [l0, l1]})
             out.append("// ---- extracted: src/%s:%d-%d (%s)" % (srcfile, l0, l1, label))
